@@ -562,7 +562,7 @@ func (g *gen) flag(key string, prereqKeys, segKeys []string) WFlag {
 	f.FT = g.vr(nVars)
 	f.TrackFT = r.chance(1, 4)
 	f.Excl = r.chance(1, 4)
-	f.Meta = WFlagMeta{Version: pick(r, []int{r.intn(100), r.intn(100), r.intn(100), -1, 1 << 31, 9007199254740993, math.MaxInt64}), Track: r.bool(), Debug: "0"}
+	f.Meta = WFlagMeta{Version: pick(r, []int{r.intn(100), r.intn(100), r.intn(100), -1, 1 << 31, 9007199254740993, math.MaxInt64}), Track: r.bool(), Debug: "0", Deleted: r.chance(1, 10)}
 	if r.chance(1, 4) {
 		f.Meta.Debug = fmt.Sprint(1500000000000 + r.intn(1000))
 	}
@@ -594,7 +594,7 @@ func (g *gen) segTargets() []WSegTarget {
 
 func (g *gen) segment(key string, segKeys []string) WSegment {
 	r := g.r
-	s := WSegment{Key: key, Salt: pick(r, saltPool), Form: g.form(), Version: pick(r, []int{r.intn(50), r.intn(50), r.intn(50), -1, 1 << 31, math.MaxInt64}), Rules: []WSegRule{},
+	s := WSegment{Key: key, Salt: pick(r, saltPool), Form: g.form(), Version: pick(r, []int{r.intn(50), r.intn(50), r.intn(50), -1, 1 << 31, math.MaxInt64}), Deleted: r.chance(1, 10), Rules: []WSegRule{},
 		Inc: g.keysBiased(2), Exc: g.keysBiased(2), IncC: g.segTargets(), ExcC: g.segTargets()}
 	if r.chance(g.p.PBigSeg, 100) {
 		s.Unb = true
